@@ -26,7 +26,7 @@ RULE = ('inputs: corpus and Annex A derivations biased towards nesting (blocks, 
 ASSUMPTIONS = ['structural depth of the output is computed from the refjs tree of the output itself; continuation lines '
                'of multi-line string / comment tokens and lines that start with a comment are exempt']
 BUDGET_S = {'quick': 60, 'thorough': 700}
-REQUIRED_HITS = ['pretty_print', 'used_printer', 'shape', 'deep_shape', 'lines_checked', 'Indentator.indent', 'Indentator.dedent', 'level_zero_at_end', 'indent_from_dispatcher', 'indent_to_shortcut']
+REQUIRED_HITS = ['pretty_print', 'used_printer', 'shape', 'deep_shape', 'lines_checked', 'Indentator.indent', 'Indentator.dedent', 'level_zero_at_end', 'indent_from_dispatcher', 'indent_to_shortcut', 'closing_run']
 FLOOR = {'quick': 1500, 'thorough': 20000}
 
 INDENTS = ['  ', '\t', '', ' ', '   ', '    ', ' \t']
@@ -311,6 +311,14 @@ def run(ctx):
                 check(ctx, levels, text, INDENTS, wc, 'shape', history=False)
                 check(ctx, levels, text, INDENTS[:2], wc, 'shape', history=True)
             ctx.hit('shape')
+        # several constructs closing at once, then more layout (the printer sees one long run of layout rules)
+        from vk.gen import products
+        for k, (key, text) in enumerate(products.closing_runs()):
+            if k % ctx.nshards != ctx.shard or (ctx.tier == 'quick' and (k // ctx.nshards) % 2):
+                continue
+            check(ctx, levels, text, [INDENTS[k % len(INDENTS)], INDENTS[(k + 1) % len(INDENTS)]], False, 'closing_run')
+            ctx.hit('closing_run')
+
         def opts_fn(i, r):
             return jsgen.Opts(clean=(i % 2 == 0), max_depth=6 + (i % 3), max_stmts=4, unicode_idents=(i % 5 == 1), string_continuations=(i % 3 == 0))
         progs = work.Programs(ctx, ctx.per_shard(300, 7000), opts_fn=opts_fn,
